@@ -75,7 +75,7 @@ fn build_table(ctx: &Ctx, thorough: bool) -> Vec<ExText> {
         if text.chars().count() > 200 {
             continue;
         }
-        let prep = Prepared::new(&text, None);
+        let prep = Prepared::new(&text, None, false);
         clock::begin(u64::MAX, Tape::replay(vec![]));
         let t = crate::trace::reference_trace(&prep, 64);
         clock::end();
@@ -189,6 +189,7 @@ pub fn generate(run_seed: u64, ctx: &Ctx, sw: &Swarm, i: u64, exhaustive: u64) -
         client,
         peeks,
         extra_calls: r.below(7) as u8,
+        keep_tags: r.chance(1, 8),
         ..Case::default()
     }
 }
@@ -486,7 +487,7 @@ impl ParserVisitor for PushSingle<'_> {
 }
 
 thread_local! {
-    static T_CACHE: std::cell::RefCell<Option<(String, Option<usize>, InputKind, Trace)>> = const { std::cell::RefCell::new(None) };
+    static T_CACHE: std::cell::RefCell<Option<(String, Option<usize>, InputKind, bool, Trace)>> = const { std::cell::RefCell::new(None) };
 }
 
 fn has_cross_doc_alias(t: &Trace) -> bool {
@@ -509,7 +510,7 @@ fn has_cross_doc_alias(t: &Trace) -> bool {
 }
 
 pub fn execute(case: &Case, record_seed: Option<u64>) -> Outcome {
-    let prep = Prepared::new(&case.text, case.eof_at);
+    let prep = Prepared::new(&case.text, case.eof_at, case.keep_tags);
     let n = prep.n_chars;
     let tape = match record_seed {
         Some(s) => Tape::record(s),
@@ -522,8 +523,8 @@ pub fn execute(case: &Case, record_seed: Option<u64>) -> Outcome {
     let cacheable = !matches!(case.input, InputKind::Ring(_, Policy::PerCall));
     let cached = if cacheable {
         T_CACHE.with(|c| {
-            c.borrow().as_ref().and_then(|(t, e, k, tr)| {
-                if *t == case.text && *e == case.eof_at && *k == case.input {
+            c.borrow().as_ref().and_then(|(t, e, k, kt, tr)| {
+                if *t == case.text && *e == case.eof_at && *k == case.input && *kt == case.keep_tags {
                     Some(tr.clone())
                 } else {
                     None
@@ -538,7 +539,7 @@ pub fn execute(case: &Case, record_seed: Option<u64>) -> Outcome {
         None => {
             let t = with_parser(case.input, &prep, IterateAll { max_events: event_budget(n) });
             if cacheable {
-                T_CACHE.with(|c| *c.borrow_mut() = Some((case.text.clone(), case.eof_at, case.input, t.clone())));
+                T_CACHE.with(|c| *c.borrow_mut() = Some((case.text.clone(), case.eof_at, case.input, case.keep_tags, t.clone())));
             }
             t
         }
